@@ -147,6 +147,20 @@ def run_case(case: dict) -> dict:
     raw = [f.copy() for f in res.raw_variables]
     if len(raw) != nseg:
         return core.result(sig=case["seed"], nontrivial=False, violations=[core.viol("segment count differs", None, got=len(raw), expected=nseg)])
+    stitched = 0
+    if nseg >= 2 and rng.random() < 0.3:
+        # a piecewise result stitched by hand: every later segment starts with a row at the very time the segment before
+        # ended (the state right after a pulse), so a time label occurs in two segments
+        from mxlpy.simulation import Simulation
+
+        raw2 = [raw[0]]
+        for k_ in range(1, nseg):
+            pulse = raw2[-1].iloc[-1].copy()
+            pulse[rng.choice(list(pulse.index))] += 0.75
+            raw2.append(pd.concat([pd.DataFrame([pulse], index=[raw2[-1].index[-1]]), raw[k_]]))
+        res = Simulation(model=res.model, raw_variables=[f.copy() for f in raw2], raw_parameters=[dict(p_) for p_ in res.raw_parameters])
+        raw = raw2
+        stitched = 1
     refs = [rm.Ref(with_params(spec, p)) for p in seg_params]
     ref0 = refs[0]
     variables = ref0.variables
@@ -246,7 +260,7 @@ def run_case(case: dict) -> dict:
     rng.shuffle(order)
     got: dict[int, list] = {}
     viols: list[dict] = []
-    counters = {"views_read": 0, "segments": nseg, "parameter_sets_differing_by_1e-6_relative": tiny_updates, "models_with_a_state_dependent_coefficient": int(any(c["name"] == "vd" for c in spec["components"])), "models_with_exactly_zero_coefficients": int(any(c["name"] == "vz" for c in spec["components"]))}
+    counters = {"views_read": 0, "segments": nseg, "results_stitched_by_hand_with_a_time_label_in_two_segments": stitched, "parameter_sets_differing_by_1e-6_relative": tiny_updates, "models_with_a_state_dependent_coefficient": int(any(c["name"] == "vd" for c in spec["components"])), "models_with_exactly_zero_coefficients": int(any(c["name"] == "vz" for c in spec["components"]))}
     for i in order:
         r = reads[i]
         try:
